@@ -239,6 +239,10 @@ func checkC12(r *Run) {
 	r.Rule("C12.R2.exchange", "ack merges the peer's records on every path; ack2 merges; the sync handler returns sync's answer; GossipOnceWith feeds the peer's ack to ack", 4)
 	r.Rule("C12.R4.restart", "cluster.Open restarts the host heartbeat on every path that found persisted state, and on every success path from there the state is flushed synchronously (goFlushStore's FlushSync of CopyState()) afterwards: the new generation is on disk before Open returns", 3)
 	r.Rule("C12.R2.complete", "gossip.sync compares every received digest with the local record (no digest is skipped before the comparison) and, on every path, runs the pass that volunteers the members the initiator sent no digest for", 2)
+	r.Rule("C12.ERR", "no error returned by a call is discarded or left neither ruled out nor used on some path in the gossip and cluster-store packages: a failed exchange that looks successful is a merge that silently did not happen", 1)
+	checkErrDrop(r, p, "C12.ERR", func(fn *FuncNode) bool {
+		return fn.InPkgs("aspen/internal/cluster/gossip", "aspen/internal/cluster/store")
+	}, 10)
 	r.Rule("C12.R3.order", "Heartbeat.OlderThan is the strict lexicographic (Generation, Version) order, YoungerThan its mirror; Restart bumps Generation and zeroes Version", 3)
 
 	scope := func(fn *FuncNode) bool { return fn.InPkgs("aspen/internal/cluster", "x/store") }
